@@ -178,11 +178,11 @@ TNext ==
      ELSE LET e == steps[l] IN
           IF Traces[tid].mode = "fan"
           THEN \* every step is judged from the same initial state
-               /\ IF ~Pre(S, e.op, e.a) THEN Report("stepooc", "pre")
+               /\ IF Suspended(e) \/ ~(Pre(S, e.op, e.a) = TRUE) THEN Report("stepooc", "pre")
                   ELSE LET j == Judge(S, e) IN IF j = "ok" THEN TRUE ELSE Report("stepfail", j)
                /\ l' = l + 1 /\ UNCHANGED <<tid, verdict>> /\ UNCHANGED vars
-          ELSE IF ~Pre(S, e.op, e.a)
-          THEN \* out of contract: not judged; resynchronise on the logged state when that is a legal state
+          ELSE IF Suspended(e) \/ ~(Pre(S, e.op, e.a) = TRUE)
+          THEN \* out of contract (or taken from a state the model cannot express): not judged; resynchronise on the logged state when that is a legal state
                IF Legal(e.post) /\ ObsLegal(e)
                THEN /\ Report("stepooc", "pre") /\ SetS(e.post) /\ UNCHANGED path /\ l' = l + 1 /\ UNCHANGED <<tid, verdict>>
                ELSE /\ verdict' = "ooc" /\ Report("ooc", "pre") /\ UNCHANGED <<tid, l>> /\ UNCHANGED vars
